@@ -363,6 +363,14 @@ func mjpegCorpus(c *corr.Ctx) {
 	}
 	pkts = append(pkts, pk(seq, true, 0, 0, 50, []byte{1}), pk(seq+1, true, 1, 0, 50, []byte{2}), pk(seq+2, true, 0, 63, 50, nil), pk(seq+3, true, 0, 64, 50, []byte{1, 2}))
 	cu.HostileStream(c, Mjpeg, inst, pkts, true, "mjpeg-corpus-qfactor", "tables from the Q factor, short images")
+	// fixed cfdb263: header-only following fragments (offset = bytes collected, no data)
+	pkts = []*rtp.Packet{pk(0, false, 0, 1, 50, []byte{0xAA})}
+	for i := 1; i <= 2000; i++ {
+		pkts = append(pkts, pk(uint16(i), false, 1, 1, 50, nil))
+	}
+	cu.HostileStream(c, Mjpeg, inst, pkts, false, "mjpeg-corpus-empty-fragments", "first packet with 1 byte + header-only following fragments")
+	pkts = []*rtp.Packet{pk(0, false, 0, 1, 50, []byte{0xAA}), pk(1, false, 1, 1, 50, nil), pk(2, true, 1, 1, 50, []byte{0xBB}), pk(3, false, 0, 1, 50, nil), pk(4, true, 0, 1, 50, []byte{1, 2})}
+	cu.HostileStream(c, Mjpeg, inst, pkts, true, "mjpeg-corpus-empty-small", "header-only fragments, compared with the model")
 	// fragments whose offsets approach 2^24: accepted while offset = bytes collected
 	big := make([]byte, 65000)
 	pkts = pkts[:0]
